@@ -35,7 +35,7 @@ class GetEliminationOrder(Contract):
         return old["bm_nodes"]
 
     def snapshot(self, ex, st, args):
-        return {"bm_nodes": args["self"].fields["bayesian_model"].fields["_nodes"],
+        return {"bm_nodes": args["self"].fields["bayesian_model"].fields["@nodes"],
                 "nodes0": args["nodes"].mem if isinstance(args["nodes"], Coll) else None}
 
     def pre(self, ex, st, args):
@@ -90,7 +90,7 @@ class VEGetEliminationOrder(Contract):
         for ol in ("list", "None"):
             for el in ("dict", "None"):
                 model = new_graph("BayesianNetwork", "m")
-                this = Obj("VariableElimination", {"model": model, "variables": Coll("list", Atom, model.fields["_nodes"], nodup=True)})
+                this = Obj("VariableElimination", {"model": model, "variables": Coll("list", Atom, model.fields["@nodes"], nodup=True)})
                 order = atom_list("order", "list") if ol == "list" else NONE
                 ev = DictV(Atom, "scalar", z3.Const("ev_dom", set_sort(Atom)), z3.Const("ev_val", z3.ArraySort(Atom, Atom)), vsort=Atom) if el == "dict" else NONE
                 yield f"order={ol},evidence={el}", {"self": this, "variables": atom_list("Q", "list"), "evidence": ev,
@@ -98,7 +98,7 @@ class VEGetEliminationOrder(Contract):
 
     @staticmethod
     def sets(args):
-        V = args["self"].fields["model"].fields["_nodes"]
+        V = args["self"].fields["model"].fields["@nodes"]
         Q = args["variables"].mem
         ev = args["evidence"]
         Ev = ev.dom if not isinstance(ev, type(NONE)) else empty_set(Atom)
